@@ -467,6 +467,68 @@ def R6_one_sided(run):
     run.check("R6", "both-sentinels-rejected", both, "resolve_one_sided_position_ticks no longer fails with InvalidTickIndex", loc=fn.loc(), detail="both sentinels / crossed bounds => InvalidTickIndex")
 
 
+def R6b_explicit_bound_kept(run):
+    run.title("R6b", "resolve_one_sided_position_ticks hands the caller's explicit bound back in its own place and derives only the sentinel side: "
+                     "lower = MIN sentinel => (derived, upper as given); upper = MAX sentinel => (lower as given, derived); an explicit bound on the wrong "
+                     "side of the price therefore reaches the range validation inverted and is refused, it is not re-ordered into a range that straddles the price")
+    facts = run.facts
+    fn = facts.need_fn("util::shared::resolve_one_sided_position_ticks")
+    run.touch(fn)
+    lo_at = [at for at in A.atoms(fn) if at.cond() and at.cond()[0] in ("Eq", "Ne") and is_param(at.cond()[1], "tick_lower_index") and const_val(at.cond()[2]) == -2147483648]
+    up_at = [at for at in A.atoms(fn) if at.cond() and at.cond()[0] in ("Eq", "Ne") and is_param(at.cond()[1], "tick_upper_index") and const_val(at.cond()[2]) == 2147483647]
+    fr_at = [at for at in A.atoms(fn) if at.cond() and at.cond()[0] in ("Ge", "Lt") and is_param(at.cond()[1], "tick_spacing")]
+    if not lo_at or not up_at:
+        run.missing("R6b", "sentinel-tests", "the tests lower == i32::MIN / upper == i32::MAX were not found", loc=fn.loc())
+        return
+
+    def results(lower_sentinel, upper_sentinel):
+        asm = [(at, (at.cond()[0] == "Eq") == lower_sentinel) for at in lo_at] + [(at, (at.cond()[0] == "Eq") == upper_sentinel) for at in up_at] + \
+              [(at, at.cond()[0] != "Ge") for at in fr_at]
+        pv = prov_assuming(fn, asm)
+        out = []
+        for bi, bb in enumerate(fn.blocks):
+            if bb["t"]["k"] == "ret" and pv.flow.state_in[bi] is not None:
+                for l in leaves(pv.local(0, bi, len(bb["s"]))):
+                    if l[0] == "agg" and l[2] == "Ok" and strip(dict(l[3])["0"])[0] == "tuple":
+                        out.append(strip(dict(l[3])["0"])[1])
+        return out
+    # the two resolved values are plain locals nobody else can rewrite: neither is mutably borrowed (a `mem::swap(&mut lo, &mut hi)`
+    # would re-order them behind the value analysis' back)
+    from analysis.ir import op_place
+    ret_locals = set()
+    for bb in fn.blocks:
+        for st in bb["s"]:
+            if st["k"] == "=" and (st["rv"].get("agg") or {}).get("k") == "tuple" and len(st["rv"].get("ops", [])) == 2:
+                for o in st["rv"]["ops"]:
+                    pl = op_place(o)
+                    if pl is not None and not pl.get("p"):
+                        ret_locals.add(pl["l"])
+    # (through copies)
+    for _ in range(3):
+        for bb in fn.blocks:
+            for st in bb["s"]:
+                if st["k"] == "=" and st["p"]["l"] in ret_locals and not st["p"].get("p") and "use" in st["rv"]:
+                    pl = op_place(st["rv"]["use"])
+                    if pl is not None and not pl.get("p"):
+                        ret_locals.add(pl["l"])
+    borrowed = sorted({fn.locals[st["rv"]["ref"]["l"]].get("n") or "_%d" % st["rv"]["ref"]["l"] for bb in fn.blocks if not bb["c"] for st in bb["s"]
+                       if st["k"] == "=" and isinstance(st["rv"].get("ref"), dict) and st["rv"].get("m") and not st["rv"]["ref"].get("p") and st["rv"]["ref"]["l"] in ret_locals})
+    run.check("R6b", "no-rewrite-behind", not borrowed, "resolve_one_sided_position_ticks hands %s to something that can rewrite it (&mut)" % borrowed, loc=fn.loc(), detail="resolved bounds are never mutably borrowed")
+    for name, ls, us, kept_ix, kept_param in (("lower-derived", True, False, 1, "tick_upper_index"), ("upper-derived", False, True, 0, "tick_lower_index")):
+        rs = results(ls, us)
+        ok = bool(rs)
+        why = "no Ok((lower, upper)) result in this case"
+        for r in rs:
+            kept = leaves(r[kept_ix])
+            derived = leaves(r[1 - kept_ix])
+            if not all(is_param(x, kept_param) for x in kept):
+                ok, why = False, "the explicit bound's place holds %s" % [sh(x, 40) for x in kept]
+            if any(strip(x)[0] == "param" for x in derived):
+                ok, why = False, "the derived side holds %s" % [sh(x, 40) for x in derived]
+        run.check("R6b", name, ok, "resolve_one_sided_position_ticks with %s: %s" % ("lower = i32::MIN" if ls else "upper = i32::MAX", why), loc=fn.loc(),
+                  detail="(derived, upper as given)" if ls else "(lower as given, derived)")
+
+
 def R7_range_validator(run):
     run.title("R7", "validate_tick_range_for_whirlpool (both): each bound not usable for the pool's spacing, or lower >= upper => InvalidTickIndex; on spacing >= 32768 a lower bound other "
                     "than the full-range lower OR an upper bound other than the full-range upper => FullRangeOnlyPool (each comparison fails on its own); "
@@ -545,4 +607,4 @@ def R7_range_validator(run):
               loc=u.loc(), detail="in [-443636, 443636] and tick % spacing == 0")
 
 
-RULES = [R1_range_fields, R2_close, R3_lock, R4_one_token, R5_bundle, R6_one_sided, R7_range_validator]
+RULES = [R1_range_fields, R2_close, R3_lock, R4_one_token, R5_bundle, R6_one_sided, R6b_explicit_bound_kept, R7_range_validator]
